@@ -8,6 +8,8 @@ CONSTANTS
   CostSet <- CostsQuick
   Modes <- AllModes
   CheckDecl = FALSE
+  Given <- NoGiven
+  WithRange = TRUE
 INVARIANT TypeOK
 INVARIANT RowIsLevenshtein
 INVARIANT MistakeCostsAgree
